@@ -86,6 +86,15 @@ CHECKS = {
    technique="grammar-based generation of method shapes x patterns x failing tuples; message-grammar oracle built from generator-known Debug strings, printed line numbers and the C06 interpreter",
    text="For each generated pattern and shape (incl. non-Debug, reference-depth, &mut and generic parameters) every mock-induced error kind is triggered on a fresh mock; the message must render the call as Trait::method(args) from the generator's own Debug strings ('?' for non-Debug), name the pattern by location (file and the line the generator printed) and source text, and for guard-free single-alternative patterns list exactly the positions the interpreter rejects, each with the actual value.",
    note="only the parts named by the property are compared; ANSI codes stripped; pattern text compared in the documented short rendering with a literal-atoms fallback"),
+
+ "C14": dict(engine="E1 tuple trees (harness/rt) + E2 compile-fail (harness/progen)", cat="exploration", ref="§4 C14",
+   technique="exhaustive arity sweep + property-based random tuple trees over distinct ordered leaves (acceptance order reveals flattening order); generated offending clauses at generated positions; exhaustive enumeration of a builder-chain grammar judged by rustc against a type-level model",
+   text="Every tuple arity 0, 2..16 (flat, and nested between further leaves) is built as a REAL tuple whose leaves are distinct ordered clauses: the in-order history must be accepted leaf by leaf and verify silently, every adjacent transposition must be refused; random trees up to depth 4 / 40 leaves repeat this. Consistent generated setups get one offending clause (opposite mode for a mentioned method, or an empty stub) injected at a generated position: construction itself must panic. All chains of a builder grammar (entry x response x quantifier x then) are type-checked by cargo check, one bin per chain: legal ones must compile, illegal ones must be rejected for the expected reason (E0271 naming InAnyOrder / Exact, E0599 for then() on an unquantified builder).",
+   note="sub-trees are wrapped in the DynClause hook, nodes are production tuple impls; the 'return cannot be produced in the current feature set' case needs a no-mutex build and is only exercised by the thorough nostd variant when present"),
+ "C20": dict(engine="E1 differential (harness/rt)", cat="exploration", ref="§4 C20",
+   technique="differential property-based testing: generated scripts replayed by the mocked required methods vs a hand-written struct implementing the upstream trait with the same script, driven through upstream provided methods; enumerated wiring sweep",
+   text="Scripts of chunk sizes, short transfers, Interrupted/other errors and payloads are replayed through write_all, write_fmt, write_vectored, read_exact, read_to_end, read_to_string, read_vectored, read_line, read_until, rewind, stream_position, Hasher::write_u8..isize, format! with width/fill, DelayNs::delay_us/ms (incl. the overflow-splitting range), OutputPin::set_state, StatefulOutputPin::toggle, I2c read/write/write_read, SpiDevice read/write/transfer/transfer_in_place, SetDutyCycle provided methods: results, buffers and the sequence of required-method calls must equal those of the plain struct. 33 wiring probes configure one entry point at a time (embedded-hal neighbours of equal signature, SpiBus, std io provided methods mocked directly, Debug/Display, Error::source, tokio and futures-io poll_* methods and vectored defaults).",
+   note="upstream provided methods are the reference on both sides; embedded-hal error paths are not scripted"),
 }
 
 NOT_YET = {
